@@ -6,13 +6,14 @@ use serde_json::{json, Value};
 // easy to confuse: equal up to letter case, one a proper prefix of the other, composed vs decomposed accents.
 const POOL: &[&str] = &["?", "a", "A", "ab", "a.js", "A.js", "ü", "u\u{308}", "g.map", "h", "c#", "q?x", "50%", "a b", "k=v&w", "x+y", "~", "..."];
 
-fn path_string(comps: &Value, abs: bool, sep: i64) -> String {
+fn path_string(comps: &Value, abs: bool, sep: i64, dbl: u64) -> String {
     // sep 0: '/', 1: '\\', 2: both kinds alternating within one path, 3: alternating the other way
     let pick = |k: usize| match sep { 0 => "/", 1 => "\\", 2 => if k % 2 == 0 { "/" } else { "\\" }, _ => if k % 2 == 0 { "\\" } else { "/" } };
+    // dbl: which separators are written TWICE ("http://host/a", "/srv//www"): a run of separators is one separator
     let mut out = String::new();
-    if abs { out.push_str(pick(1)); }
+    if abs { out.push_str(pick(1)); if dbl & 1 == 1 { out.push_str(pick(1)); } }
     for (k, c) in comps.as_array().unwrap().iter().enumerate() {
-        if k > 0 { out.push_str(pick(k)); }
+        if k > 0 { out.push_str(pick(k)); if (dbl >> (k % 16)) & 1 == 1 { out.push_str(pick(k + 1)); } }
         out.push_str(POOL[c.as_u64().unwrap() as usize]);
     }
     out
@@ -21,8 +22,9 @@ fn path_string(comps: &Value, abs: bool, sep: i64) -> String {
 pub fn run(case: &Value, em: &mut Emitter) {
     let abs = case["abs"].as_bool().unwrap();
     let sep = case["sep"].as_i64().unwrap();
-    let base = path_string(&case["base"], abs, sep);
-    let target = path_string(&case["target"], abs, sep);
+    let (db, dt) = (case.get("dbl_base").and_then(|x| x.as_u64()).unwrap_or(0), case.get("dbl_target").and_then(|x| x.as_u64()).unwrap_or(0));
+    let base = path_string(&case["base"], abs, sep, db);
+    let target = path_string(&case["target"], abs, sep, dt);
     let alias = (base.len() + target.len()) % 2 == 0;
     let out = guard(|| {
         // when one argument is a textual prefix of the other, both are handed over as slices of ONE buffer
@@ -39,7 +41,7 @@ pub fn run(case: &Value, em: &mut Emitter) {
         while comps.last() == Some(&-3) && comps.len() > 1 { comps.pop(); }
         json!({"k": "ok", "comps": comps, "text": r})
     });
-    em.emit("rel", json!({"base": case["base"], "target": case["target"], "abs": abs, "sep": sep}), out);
+    em.emit("rel", json!({"base": case["base"], "target": case["target"], "abs": abs, "sep": sep, "dbl": [db, dt]}), out);
 }
 
 pub fn gen(rng: &mut Rng, _size: usize) -> Value {
@@ -53,5 +55,7 @@ pub fn gen(rng: &mut Rng, _size: usize) -> Value {
         let k = rng.below(base.len() as u64 + 1) as usize;
         for i in 0..k.min(target.len()) { target[i] = base[i]; }
     }
-    json!({"op": "rel", "base": base, "target": target, "abs": rng.chance(1, 2), "sep": rng.below(4)})
+    // one case in four writes some separators twice (the same ones in both paths, or independently)
+    let (db, dt) = if rng.chance(1, 4) { let m = 1 << rng.below(5) | if rng.chance(1, 2) { 1 << rng.below(8) } else { 0 }; (m, if rng.chance(2, 3) { m } else { 1 << rng.below(6) }) } else { (0, 0) };
+    json!({"op": "rel", "base": base, "target": target, "abs": rng.chance(1, 2), "sep": rng.below(4), "dbl_base": db, "dbl_target": dt})
 }
